@@ -697,7 +697,7 @@ class Main(Part):
     model_exe = "dsmodel_bloom"
     # C15_MODEL_FIXED=1: compare against the model with the three proposed repairs switched on (used to validate
     # proposed_fixes/C15-*.patch on a patched scratch tree; never set for the real check)
-    family = "bloomfixed" if os.environ.get("C15_MODEL_FIXED") else "bloom"
+    family = "bloom" if os.environ.get("C15_MODEL_ASCODED") else "bloomfixed"   # /repo carries the four fix: commits
     timeout = 120
 
     def generate(self, rng, tier):
@@ -719,7 +719,7 @@ class Main(Part):
         if o.ghost and not any(k == "bad-observation" for k, _, _ in bad):
             stop = min([idx for _, _, idx in bad] + [len(hist)])
             try:
-                mo, moc, _ = core.run_model(self.model_exe, "bloomghostfixed" if os.environ.get("C15_MODEL_FIXED") else "bloomghost", hist)
+                mo, moc, _ = core.run_model(self.model_exe, "bloomghost" if os.environ.get("C15_MODEL_ASCODED") else "bloomghostfixed", hist)
             except Exception:
                 mo, moc = [], "error"
             if moc == "ok":
@@ -888,19 +888,22 @@ SPEC = C15()
 CLAIM = dict(
     text=("Kernel-checked theorems over ALL histories (any number of filters and caller-memory blocks, any sizes / hash counts / seeds, "
           "ANY hash function, every wire-compatible layout) of an executable Lean model of bloom_filter with an explicit memory store. "
-          "For the code as it is: every recorded item's index bits stay set in its bit state and in every copy / non-empty image / "
-          "deserialized filter / wrap of the same memory (bloom_no_false_negative_partial), query = not is_empty() and all-bits-set, "
-          "query_and_update returns the all-bits-set answer from before the call (bloom_qau_prior_partial), union/intersect/invert are "
-          "bitwise OR/AND/NOT on the capacity bits (capacity always a multiple of 64) with bits_used = popcount and the count written "
-          "through (bloom_setops_bitwise), and the documented refusals (bloom_refusals_partial). The full statements that the CURRENT "
-          "code violates (stale stored count after update() through caller memory = D13; stale count after query_and_update on a dirty "
-          "filter; set operations through read-only wraps) are refuted by kernel-evaluated witness histories with the real XXHash64 "
-          "(…_full_false) which are replayed on the real code every run, and are PROVED for the model with the proposed one-line repairs "
-          "(bloom_no_false_negative_fixed, bloom_qau_prior_fixed, bloom_refusals_fixed; invariant preserved by every operation). Plus a "
+          "Proved for the repaired code that /repo now carries (bloom_no_false_negative_fixed, bloom_qau_prior_fixed, bloom_refusals_fixed; an "
+          "invariant preserved by every operation): every item ever inserted into a bit state is reported present by that filter, by every "
+          "copy, by deserialize(serialize f), by every later wrap / writable_wrap of the same memory and by every union with a compatible "
+          "filter; query_and_update returns exactly query evaluated before the call; union/intersect/invert are bitwise OR/AND/NOT on the "
+          "capacity bits (always a multiple of 64) with bits_used = popcount and the count written through (bloom_setops_bitwise); incompatible "
+          "operands and every write through a read-only view are refused. The same statements restricted to what the PINNED code guaranteed "
+          "(…_partial) and kernel-evaluated refutations of the full statements for the pinned code with the real XXHash64 (…_full_false: "
+          "stale stored count after update() through caller memory = D13; stale count after query_and_update on a dirty filter; set operations "
+          "through read-only wraps) are kept; those witnesses are replayed on the real code every run (corpus/regress/C15). Plus a "
           "differential tie of the model, of the Lean XXHash64 (all lengths 0..64+, 4 published known answers) and of the per-overload "
           "canonicalisation to the real headers on generated histories, the property oracle (inserted-set bookkeeping per bit state and "
           "view, itself compared with the Lean promise ghost) on every implementation trace, and a watchdog replay of num_hashes=65535."),
-    note=("Not decided: 'false-positive rate stays near the target' (statistical). Not modelled: reader behaviour on truncated/corrupt "
+    note=("Four genuine defects found by this check were repaired in /repo (fix: commits 4ed723a dirty marker not written through, 3f07d58 "
+          "query_and_update on a dirty filter, e537a01 set operations through read-only wraps, 4a8ad39 uint16_t hash-loop counter; "
+          "known_findings.json: fixed). The model executed against the code is the repaired variant (`bloomfixed`). "
+          "Not decided: 'false-positive rate stays near the target' (statistical). Not modelled: reader behaviour on truncated/corrupt "
           "images that run past the buffer (C11), move construction/assignment and allocator behaviour (C19), filters of 2^32 bits and "
           "more (32-bit num_longs arithmetic in the readers). Promises about caller memory assume single-writer discipline."),
     technique="Lean 4 invariant proofs over operation histories with a memory store + differential correspondence (model vs real headers) + trace oracle",
